@@ -20,6 +20,7 @@ type CaseOpts struct {
 	Watcher string // "", plain, ex, upd, exupd
 	// OraUniverse: string values over which oracle tables of the used built-ins are tabulated
 	OraUniverse []string
+	Dist        bool           // build a DistributedEnforcer (the session drives its embedded enforcer)
 	FAText      *string        // use a filtered file adapter over a file with this content
 	MatchFns    []string       // matching functions that may be registered: tabulated over OraUniverse
 	EvalTab     map[string]*Ex // rule text -> AST, for eval()
@@ -141,7 +142,14 @@ func StartCase(c *Ctx, ms *MSpec, o CaseOpts) *Sess {
 			s.A.Lines = append(s.A.Lines, mem.Line{PType: l.PType, Rule: append([]string(nil), l.Rule...)})
 			c.W.Op("aline "+l.PType+" "+proto.EncRule(l.Rule), "#")
 		}
-		e, err = casbin.NewEnforcer(m, s.A)
+		if o.Dist {
+			s.D, err = casbin.NewDistributedEnforcer(m, s.A)
+			if err == nil {
+				e = s.D.SyncedEnforcer.Enforcer
+			}
+		} else {
+			e, err = casbin.NewEnforcer(m, s.A)
+		}
 	} else {
 		e, err = casbin.NewEnforcer(m)
 	}
@@ -193,3 +201,16 @@ func StartCaseQuiet(ms *MSpec, o CaseOpts) *Sess {
 }
 
 func memLine(pt string, fields ...string) mem.Line { return mem.Line{PType: pt, Rule: fields} }
+
+// newDist builds a quiet distributed session.
+func newDist(ms *MSpec) *Sess {
+	s := &Sess{Customs: map[string]string{}, MS: ms}
+	s.A = mem.New()
+	d, err := casbin.NewDistributedEnforcer(ms.Build(), s.A)
+	if err != nil {
+		panic(err)
+	}
+	s.D = d
+	s.E = d.SyncedEnforcer.Enforcer
+	return s
+}
